@@ -1276,7 +1276,7 @@ func c05r1(c *core.Ctx) {
 					idx := 0
 					walkStack(fd.Body, func(n ast.Node, stack []ast.Node) bool {
 						ce, ok := n.(*ast.CallExpr)
-						if !ok || calleeOf(info, ce) != src {
+						if !ok || !callsMapOrderedSource(calleeOf(info, ce), src) {
 							return true
 						}
 						idx++
@@ -1715,4 +1715,35 @@ func strictArgMax(info *types.Info, rs *ast.RangeStmt) bool {
 		return true
 	})
 	return ok && !bad
+}
+
+// callsMapOrderedSource: cal is src, or the interface method that src implements
+// (os.OS.Environ called on a value that may be a *VirtualOS).
+func callsMapOrderedSource(cal, src *types.Func) bool {
+	if cal == nil || src == nil {
+		return false
+	}
+	if cal == src {
+		return true
+	}
+	if cal.Name() != src.Name() {
+		return false
+	}
+	csig, ok1 := cal.Type().(*types.Signature)
+	ssig, ok2 := src.Type().(*types.Signature)
+	if !ok1 || !ok2 || csig.Recv() == nil || ssig.Recv() == nil {
+		return false
+	}
+	iface, ok := csig.Recv().Type().Underlying().(*types.Interface)
+	if !ok {
+		return false
+	}
+	rt := ssig.Recv().Type()
+	if types.Implements(rt, iface) {
+		return true
+	}
+	if _, isPtr := rt.(*types.Pointer); !isPtr && types.Implements(types.NewPointer(rt), iface) {
+		return true
+	}
+	return false
 }
